@@ -9,6 +9,12 @@
 //!           in_written; code (256 = none); signal (0 = none); not_early]
 //!        | [1; where; io error kind]  | [2; 8] (watchdog: the scenario hung)
 //!
+//! huge-buffer case = [drv; dir; m; k; n_out]: ONE write call (dir 0) with a buffer of
+//!   m * 2^32 + k bytes to a child that does not read, or (dir 1) ONE read call with a
+//!   Vec of that capacity after the child wrote n_out bytes and exited, then a small
+//!   read; result = [0; n; byte sum; bytes ok; second read = end of file; exit code].
+//!   The 4 GiB+ buffers are zero pages never written (calloc) / never touched.
+//!
 //! Child (sh -c): `cat;` (only with use_stdin) then `yes LINE | head -c n_out`,
 //! then the same to stderr with another line, `sleep delay`, then `exit K` or
 //! `kill -SIG $$`.  Every scenario runs on its own thread with a fresh Runtime
@@ -389,8 +395,84 @@ async fn scenario(sc: Sc, pid: Arc<AtomicU32>) -> Result<Vec<u64>, Fail> {
     ])
 }
 
+
+// ---- huge buffers ----------------------------------------------------------
+
+#[derive(Clone, Copy)]
+struct Huge {
+    drv: u64,
+    dir: u64,
+    size: usize,
+    n_out: u64,
+}
+
+fn decode_huge(c: &[u64]) -> Result<Huge, BadCase> {
+    let (drv, dir, m, k, n_out) = (c[0], c[1], c[2], c[3], c[4]);
+    let ok = drv <= 1 && dir <= 1 && (1..=2).contains(&m) && k <= 65536 && n_out <= CAP
+        && (dir == 0 || n_out >= 1);
+    if !ok {
+        return Err(BadCase);
+    }
+    Ok(Huge { drv, dir, size: ((m as usize) << 32) + k as usize, n_out })
+}
+
+async fn huge_scenario(h: Huge, pid: Arc<AtomicU32>) -> Result<Vec<u64>, Fail> {
+    let mut cmd = Command::new("/bin/sh");
+    let script = if h.dir == 0 {
+        // the child never reads its stdin
+        "sleep 0.3; exit 0".to_string()
+    } else {
+        format!("yes {} | head -c {}; exit 0", line(Pat::Out), h.n_out)
+    };
+    cmd.arg("-c").arg(script);
+    cmd.stdin(if h.dir == 0 { Stdio::piped() } else { Stdio::null() }).unwrap();
+    cmd.stdout(if h.dir == 1 { Stdio::piped() } else { Stdio::null() }).unwrap();
+    cmd.stderr(Stdio::null()).unwrap();
+    cmd.process_group(0);
+    let mut child = cmd.spawn().map_err(|e| (0, e))?;
+    pid.store(child.id(), Ordering::SeqCst);
+    if h.dir == 0 {
+        let mut stdin = child.stdin.take().unwrap();
+        // zeroed pages that are never written: only what the kernel copies is read
+        let buf: Vec<u8> = vec![0u8; h.size];
+        let BufResult(res, buf) = stdin.write(buf).await;
+        let n = res.map_err(|e| (3, e))?;
+        let intact = buf.len() == h.size;
+        drop(buf);
+        drop(stdin);
+        let status = child.wait().await.map_err(|e| (4, e))?;
+        let code = status.code().map(|c| c as u64).unwrap_or(256);
+        Ok(vec![0, n as u64, 0, intact as u64, 1, code])
+    } else {
+        let mut out = child.stdout.take().unwrap();
+        // the child has written everything (n_out <= pipe capacity) and exited
+        let status = child.wait().await.map_err(|e| (4, e))?;
+        let code = status.code().map(|c| c as u64).unwrap_or(256);
+        let BufResult(res, buf) = out.read(Vec::<u8>::with_capacity(h.size)).await;
+        let n = res.map_err(|e| (1, e))?;
+        let mut st = Stats::new(Pat::In, Pat::Out, 0);
+        let len_rule = buf.len() == n && buf.capacity() >= h.size;
+        st.absorb(&buf[..n.min(buf.len())]);
+        drop(buf);
+        let BufResult(res2, _) = out.read(Vec::<u8>::with_capacity(16)).await;
+        let eof = res2.map_err(|e| (1, e))? == 0;
+        Ok(vec![0, n as u64, st.sum % (1 << 32), (st.ok2 && len_rule) as u64, eof as u64, code])
+    }
+}
+
+enum Job {
+    Std(Sc),
+    Huge(Huge),
+}
+
 fn run(case: &[u64]) -> Result<Vec<u64>, BadCase> {
-    let sc = decode(case)?;
+    let (job, drv, delay) = if case.len() == 5 {
+        let h = decode_huge(case)?;
+        (Job::Huge(h), h.drv, 0)
+    } else {
+        let sc = decode(case)?;
+        (Job::Std(sc), sc.drv, sc.delay)
+    };
     let (tx, rx) = mpsc::channel::<Vec<u64>>();
     let pid = Arc::new(AtomicU32::new(0));
     let pid2 = pid.clone();
@@ -399,10 +481,13 @@ fn run(case: &[u64]) -> Result<Vec<u64>, BadCase> {
         .spawn(move || {
             let res = std::panic::catch_unwind(std::panic::AssertUnwindSafe(|| {
                 let mut pb = ProactorBuilder::new();
-                pb.driver_type(if sc.drv == 1 { DriverType::Poll } else { DriverType::IoUring });
+                pb.driver_type(if drv == 1 { DriverType::Poll } else { DriverType::IoUring });
                 let rt = RuntimeBuilder::new().with_proactor(pb).build().expect("runtime");
-                assert!(rt.driver_type() == if sc.drv == 1 { DriverType::Poll } else { DriverType::IoUring });
-                rt.block_on(scenario(sc, pid2))
+                assert!(rt.driver_type() == if drv == 1 { DriverType::Poll } else { DriverType::IoUring });
+                match job {
+                    Job::Std(sc) => rt.block_on(scenario(sc, pid2)),
+                    Job::Huge(h) => rt.block_on(huge_scenario(h, pid2)),
+                }
             }));
             let out = match res {
                 Ok(Ok(v)) => v,
@@ -421,7 +506,7 @@ fn run(case: &[u64]) -> Result<Vec<u64>, BadCase> {
             let _ = tx.send(out);
         })
         .expect("thread");
-    let limit = Duration::from_millis(12_000 + sc.delay);
+    let limit = Duration::from_millis(12_000 + delay);
     match rx.recv_timeout(limit) {
         Ok(v) => Ok(v),
         Err(_) => {
